@@ -108,6 +108,23 @@ def slice_builder_drop(chk, prog):
         "core::slice::<impl [T]>::len": const(ALLOC),
         "core::ptr::metadata::metadata": const(ALLOC),
     }
+
+    def needs_drop(ip, st, args, info):
+        # mem::needs_drop::<X>(): on the `false` answer destructing a value of type X is a no-op, so leaving it out is
+        # the same behaviour; remember for which X the path assumed it
+        ga = info["f"].get("args", [])
+        x = prog.ty(ga[0]["ty"]) if ga and "ty" in ga[0] else {}
+        s2 = st.fork()
+        s2.g["no_drop_glue"] = tuple(sorted(set(s2.g.get("no_drop_glue", ())) | {x.get("s", "?")}))
+        return [(st, "ret", interp.I(1)), (s2, "ret", interp.I(0))]
+    prims["core::mem::needs_drop"] = needs_drop
+    prims["core::intrinsics::needs_drop"] = needs_drop
+    # the value the builder holds: the pointee of GcBuilder::as_ptr in the Drop body (SliceWithHeader<H, E>)
+    vt = prog.all_adts.get("slice::SliceWithHeader")
+    value_tys = set()
+    if vt:
+        ps = [g for g in ("H", "E")]
+        value_tys = {"slice::SliceWithHeader<%s>" % ", ".join(ps)}
     ip = Interp(prog, prims=prims, strict=True)
     ip.lenient_std = True
     st = State()
@@ -134,6 +151,9 @@ def slice_builder_drop(chk, prog):
             continue
         d = [i for i, e in enumerate(o.ev) if e[0] == "destruct"]
         rl = [i for i, e in enumerate(o.ev) if e[0] == "release"]
+        glue_free = set(o.st.g.get("no_drop_glue", ()))
+        if not d and len(rl) == 1 and (glue_free & value_tys or {"H", "E"} <= glue_free):
+            continue            # nothing to destruct: the held value's type has no drop glue on this path
         if len(d) != 1 or len(rl) != 1 or d[0] > rl[0]:
             probs_order.append("the builder's Drop does not destruct the initialised part (once) before releasing the block "
                                "(%d destruct, %d release event(s))" % (len(d), len(rl)))
